@@ -17,7 +17,7 @@ RULE = ("for model configuration classes (tags per predicate class x rated power
 ASSUMPTIONS = ["equality is NaN-aware; where the bulk read reports None the single read may return None or raise ValueError",
                "ids listed twice in a table (ET meter_e_total_exp/imp: float and 8-byte variants) resolve to the later definition in "
                "both paths"]
-MUST = ["firmware_version_variants", "history_slow_first_answer", "impossible_clock_contents", "ids_compared", "calculated_ids_compared", "bitmap_ids_compared", "four_byte_meter_ids_compared", "none_in_bulk",
+MUST = ["history_concurrent_reads", "firmware_version_variants", "history_slow_first_answer", "impossible_clock_contents", "ids_compared", "calculated_ids_compared", "bitmap_ids_compared", "four_byte_meter_ids_compared", "none_in_bulk",
         "history_battery_appears", "history_block_refused_later", "history_device_info_rerun", "history_block_served_later",
         "history_battery_disappears", "configs_run"]
 EXHAUSTIVE = {"quick": False, "thorough": False}
@@ -176,6 +176,38 @@ def run_cfg(cfg, part, port, seed, history=None):
             await compare_all(g, inv2, part, fam, tag, case, "first answers late")
             sim.on_request = orig_on
             part.count("history_slow_first_answer")
+        elif history == "concurrent_reads":
+            # single reads of listed ids issued WHILE a poll of the same object is under way (the inverter takes 50 ms per answer): the
+            # object's lock serialises the requests; a listed id stays known and reads the same value (registers unchanged)
+            import asyncio
+            sim.delay = 0.05
+            listed = [x.id_ for x in inv.sensors()]
+            pick = [x for x in listed if x.startswith(("battery", "meter", "pmppt", "vpv"))]
+            rnd.shuffle(pick)
+            pick = pick[:14]
+            got_ = {}
+
+            async def single(sid, off):
+                await asyncio.sleep(off)
+                try:
+                    got_[sid] = ("ok", await inv.read_sensor(sid))
+                except ValueError as e:
+                    got_[sid] = ("ValueError", str(e))
+                except Exception as e:      # noqa
+                    got_[sid] = (type(e).__name__, str(e)[:80])
+            bulk_, *_ = await asyncio.gather(inv.read_runtime_data(), *[single(sid, 0.01 + 0.03 * k) for k, sid in enumerate(pick)])
+            sim.delay = 0.0
+            for sid in pick:
+                how, val = got_.get(sid, ("missing", None))
+                part.count("ids_read_during_a_poll")
+                want_ = bulk_.get(sid, "<missing>")
+                if how == "ValueError" and "Unknown sensor" in str(val):
+                    part.violate(f"C16/{fam}/unknown-sensor-for-listed-id", f"{tag} [during a poll]: read_sensor('{sid}') -> {val} although sensors() lists it", case)
+                elif how not in ("ok", "ValueError"):
+                    part.violate(f"C16/{fam}/raises/{how}", f"{tag} [during a poll]: read_sensor('{sid}') raised {how}: {val}", case)
+                elif how == "ok" and not eq(val, want_) and sid not in ("apparent_power2", "apparent_power3"):
+                    part.violate(f"C16/{fam}/value-differs/during-poll", f"{tag}: read_sensor('{sid}') issued during a poll = {val!r}, the poll reports {want_!r}", case)
+            part.count("history_concurrent_reads")
         elif history == "device_info_rerun":
             await inv.read_sensor(inv.sensors()[1].id_)
             if fam == "ET":
@@ -227,7 +259,7 @@ def run_shard(spec):
             continue
         port = 8899 if cfg["family"] == "ES" else (502 if i % 3 == 0 else 8899)
         hist = [None, "battery_appears", "block_refused_later", "device_info_rerun", "block_served_later", "battery_disappears",
-                "slow_first_answer"][i % 7] if cfg["family"] != "ES" else None
+                "slow_first_answer", "concurrent_reads"][i % 8] if cfg["family"] != "ES" else None
         if hist == "slow_first_answer":
             port = 8899
         run_cfg(cfg, part, port, f"{spec['seed']}:C16:{i}", hist)
